@@ -146,3 +146,28 @@ func VerifToInt64(value interface{}) (int64, bool) {
 	v, err := toInt64(value)
 	return v, err == nil
 }
+
+// ---- persistent store internals ----
+
+// VerifRotate forces a memtable rotation.
+func (s *PersistentHybridIndex) VerifRotate() { s.memtableQueue.Rotate() }
+
+// VerifMaybeCompact runs one compaction check synchronously.
+func (s *PersistentHybridIndex) VerifMaybeCompact() error { return s.maybeCompact() }
+
+// VerifEvictAllCaches drops every cached segment index.
+func (s *PersistentHybridIndex) VerifEvictAllCaches() { s.segmentManager.EvictAllCaches() }
+
+// VerifSegmentIDs lists the registered segments in manager order, with their cached flag.
+func (s *PersistentHybridIndex) VerifSegmentIDs() (ids []uint64, cached []bool) {
+	for _, seg := range s.segmentManager.list() {
+		seg.mu.RLock()
+		ids = append(ids, seg.id)
+		cached = append(cached, seg.cachedIndex != nil)
+		seg.mu.RUnlock()
+	}
+	return
+}
+
+// VerifMemtableCount returns the number of memtables in the queue (frozen + active).
+func (s *PersistentHybridIndex) VerifMemtableCount() int { return s.memtableQueue.Count() }
